@@ -21,8 +21,9 @@ type c06Case struct {
 	Seq     []string `json:"msgs"`
 	Offered string   `json:"offered_nund"` // "" = no fee-denom coin
 	Extra   bool     `json:"extra_denom"`
-	Recheck bool     `json:"recheck"`          // CheckTx in re-check mode (what the mempool runs after every commit)
-	Granter bool     `json:"self_fee_granter"` // the fee-granter field names the payer itself (legal, needs no allowance)
+	Recheck bool     `json:"recheck"`               // CheckTx in re-check mode (what the mempool runs after every commit)
+	Granter bool     `json:"self_fee_granter"`      // the fee-granter field names the payer itself (legal, needs no allowance)
+	GrantBy string   `json:"fee_granter,omitempty"` // another account that granted the payer an allowance
 	tx      model.Tx
 	req     *big.Int
 }
@@ -52,6 +53,11 @@ func c06Base(name string, wrkRec, bcnRec uint64, govFees bool, failedGov ...bool
 			}})
 		s.Prefix = append(s.Prefix, "wreg("+p+",chain-"+p+")", "breg("+p+",beacon-"+p+")", "grant("+p+"->O,all)")
 	}
+	fgr := Action{Name: "feegrant(O->WR,WL,WP)", Dt: ms, Txs: func(*model.State) []model.Tx {
+		return []model.Tx{{Msgs: []model.Msg{{Kind: model.FeeGrant, From: "O", To: "WR"}, {Kind: model.FeeGrant, From: "O", To: "WL"}, {Kind: model.FeeGrant, From: "O", To: "WP"}}}}
+	}}
+	s.Actions = append(s.Actions, fgr)
+	s.Prefix = append(s.Prefix, fgr.Name)
 	s.Actions = append(s.Actions, raise("WL", 50, 1), decide("S1", 1, 2), Action{Name: "wait(1s)", Dt: time.Second})
 	s.Prefix = append(s.Prefix, "raise(WL,50)", "accept(S1,#1)", "wait(1s)", "wait(1s)")
 	if len(failedGov) > 0 && failedGov[0] {
@@ -227,6 +233,7 @@ func c06Cases(name string, m *model.State, maxLen int) []c06Case {
 							// the rarely used fee-granter field, naming the payer itself: short top-level sequences
 							if !re && !extra && wrap == "top" && len(sq) <= 2 {
 								out = append(out, c06Case{Payer: p, Wrap: wrap, Seq: sq, Offered: off, Extra: extra, Granter: true, tx: model.Tx{Msgs: tmsgs, Fee: f, FeeGranter: p}, req: req})
+								out = append(out, c06Case{Payer: p, Wrap: wrap, Seq: sq, Offered: off, Extra: extra, GrantBy: "O", tx: model.Tx{Msgs: tmsgs, Fee: f, FeeGranter: "O"}, req: req})
 							}
 						}
 					}
@@ -333,7 +340,7 @@ func c06Extra(t Tier, ev *Evidence) []Violation {
 			r := results[ci]
 			payer := c.tx.Payer()
 			offered := c.tx.FeeOf(mc.Nund)
-			cls := fmt.Sprintf("%s|%s|%d|%s|%v|%v|%v", c.Wrap, strings.Join(c.Seq, "+"), offered.Cmp(c.req), c.Payer, c.Extra, c.Recheck, c.Granter)
+			cls := fmt.Sprintf("%s|%s|%d|%s|%v|%v|%v|%s", c.Wrap, strings.Join(c.Seq, "+"), offered.Cmp(c.req), c.Payer, c.Extra, c.Recheck, c.Granter, c.GrantBy)
 			if !seenCls[cls] {
 				seenCls[cls] = true
 				distinct++
@@ -385,6 +392,17 @@ func c06Extra(t Tier, ev *Evidence) []Violation {
 				}
 			}
 			nestedMod -= topMod
+			// the two modules' own sums (each decorator compares the offer with its module's sum only)
+			sumW, sumB := new(big.Int), new(big.Int)
+			for _, mm := range flat {
+				if f, ok := m.AnchorFee(mm); ok {
+					if strings.HasPrefix(mm.Kind, "wrk.") {
+						sumW.Add(sumW, f)
+					} else {
+						sumB.Add(sumB, f)
+					}
+				}
+			}
 			nest := "none"
 			if nestedMod > 0 && topMod == 0 {
 				nest = "all"
@@ -397,7 +415,7 @@ func c06Extra(t Tier, ev *Evidence) []Violation {
 			}
 			d := Disc{Kind: kind, Detail: fmt.Sprintf("CheckTx (recheck mode: %v) admitted %s (payer %s, wrapping %s) offering %q nund (extra denom %v) while the parameterised fee is %s and the payer holds liquid %s / spendable %s / locked %s",
 				c.Recheck, strings.Join(c.Seq, "+"), payer, c.Wrap, c.Offered, c.Extra, c.req, liquid, spend, locked),
-				Sig: map[string]string{"module_msgs_nested_in_MsgExec": nest, "both_modules_present": fmt.Sprint(hasW && hasB), "extra_denom_present": fmt.Sprint(c.Extra), "offered_vs_required": rel, "checktx_mode": map[bool]string{false: "new", true: "recheck"}[c.Recheck], "self_fee_granter": fmt.Sprint(c.Granter)}}
+				Sig: map[string]string{"module_msgs_nested_in_MsgExec": nest, "both_modules_present": fmt.Sprint(hasW && hasB), "offered_equals_each_modules_own_sum": fmt.Sprint(hasW && hasB && offered.Cmp(sumW) == 0 && offered.Cmp(sumB) == 0), "extra_denom_present": fmt.Sprint(c.Extra), "offered_vs_required": rel, "checktx_mode": map[bool]string{false: "new", true: "recheck"}[c.Recheck], "self_fee_granter": fmt.Sprint(c.Granter), "fee_granter_with_allowance": fmt.Sprint(c.GrantBy != "")}}
 			v := Violation{Property: "C06", Scenario: sc.Name, Path: append(append([]string{}, sc.Prefix...), "CheckTx:"+txJSON(c.tx)), Disc: d}
 			k := d.Kind + fmt.Sprint(d.Sig)
 			if old, ok := bySig[k]; !ok || len(v.Path[len(v.Path)-1]) < len(old.Path[len(old.Path)-1]) {
@@ -423,7 +441,7 @@ func c06Extra(t Tier, ev *Evidence) []Violation {
 	ev.Coverage["admitted"] = admitted
 	ev.Coverage["outcomes"] = hist
 	ev.Coverage["exhaustive"] = exhaustive
-	ev.Coverage["rule"] = fmt.Sprintf("from %d base states (three payer classes: rich, liquid<fee<=liquid+locked, poor; four fee histories incl. one changed by governance and one where governance proposals changing the fees were rolled back): all message sequences of length <= %d (one shorter in the two base states with a changed / rolled-back schedule; <= 2 in re-check mode) over %v x wrapping {top, all nested in MsgExec, first nested} x offered {absent, required-1, required, required+1, every proper subset sum of the per-message fees, the sum under fee schedules that are no longer / never were in force} x extra denom {no, yes} x CheckTx mode {new, recheck} x fee-granter field {unset, the payer itself (top-level sequences <= 2)}; one real CheckTx each; distinct = distinct (wrapping, sequence, offered-vs-required, payer, extra) classes", len(bases), maxLen, c06Alphabet)
+	ev.Coverage["rule"] = fmt.Sprintf("from %d base states (three payer classes: rich, liquid<fee<=liquid+locked, poor; four fee histories incl. one changed by governance and one where governance proposals changing the fees were rolled back): all message sequences of length <= %d (one shorter in the two base states with a changed / rolled-back schedule; <= 2 in re-check mode) over %v x wrapping {top, all nested in MsgExec, first nested} x offered {absent, required-1, required, required+1, every proper subset sum of the per-message fees, the sum under fee schedules that are no longer / never were in force} x extra denom {no, yes} x CheckTx mode {new, recheck} x fee-granter field {unset, the payer itself, another account with an allowance (top-level sequences <= 2)}; one real CheckTx each; distinct = distinct (wrapping, sequence, offered-vs-required, payer, extra) classes", len(bases), maxLen, c06Alphabet)
 	ev.Coverage["samples"] = samples
 	if admitted == 0 {
 		fmt.Fprintln(os.Stderr, "WARNING C06: no transaction was admitted at all; the one-sided oracle is vacuous on this tree")
